@@ -198,3 +198,10 @@ Example fetch_checked_on_bad_run :
     fetch nat nat (fun e => e) Nat.eqb s 5%Z 9%Z = Some (s', None) /\
     cache nat nat s' = [].
 Proof. eexists. eexists. repeat split; reflexivity. Qed.
+
+(* non-vacuity of fetch_sound: a fetch that does return an expression *)
+Example fetch_returns_example :
+  exists s s',
+    erun nat nat (fun e => e) Nat.eqb (empty nat nat) [ECache 1 5%Z; EAlloc 2 6%Z] = Some s /\
+    fetch nat nat (fun e => e) Nat.eqb s 5%Z 9%Z = Some (s', Some 1).
+Proof. eexists. eexists. split; reflexivity. Qed.
